@@ -376,6 +376,22 @@ class BlockWire(Family):
         check_truncations(CBlock, enc, bnds, 'block')
         check_extensions(CBlock, enc, to_model, want, TAILS[:4], 'block')
         if case['tx'] and len(case['tx']) <= 3:
+            # deserialisation does not judge the merkle field: whatever 32 bytes the header carries are kept and written back
+            # (all-zero, all-ff, a pattern), also when the block has transactions
+            for mk in C.HASHES:
+                enc2 = enc[:36] + mk + enc[68:]
+                b2 = CBlock.deserialize(enc2)
+                if bytes(b2.hashMerkleRoot) != mk or b2.serialize() != enc2:
+                    raise Viol('block with %d transaction(s) whose header carries the merkle field %s...: deserialisation changed the field / the bytes' % (len(case['tx']), mk.hex()[:8]), enc2[:100], b2.serialize()[:100])
+            # two blocks alive that share their 80 header bytes but carry different transactions: each keeps its own
+            first = CBlock.deserialize(enc)
+            other_model = dict(b, vtx=list(b['vtx'][:-1]) + [dict(b['vtx'][-1], locktime=(b['vtx'][-1]['locktime'] + 1) & 0xffffffff)] + [b['vtx'][0]])
+            enc3 = W.encode_block(other_model)
+            if enc3[:80] != enc[:80]:
+                raise HarnessError('second block does not share the header bytes')
+            second = CBlock.deserialize(enc3)
+            if first.serialize() != enc or second.serialize() != enc3 or len(first.vtx) != len(b['vtx']):
+                raise Viol('two deserialised blocks with the same header bytes and different transactions: one of them no longer re-serialises to its own bytes', enc[80:140], first.serialize()[80:140])
             # the same block built from the caller's *mutable* transactions: serialise, then the caller goes on editing
             # his transactions - the (immutable) block keeps its field values and its encoding
             mtxs = [C.lib_tx(t, mutable=True) for t in b['vtx']]
